@@ -1,6 +1,6 @@
 (* C09 -- failures surface only as InverterError, with a correct consecutive-failure count. *)
 From Coq Require Import List Bool Arith.
-From GW Require Import Proto ProtoEvolves ProtoProps ProtoNoExc FailCount FailCountProofs Callbacks CallbackGen CallbackRefine Coroutines CoroutineGen CoroutineRefine.
+From GW Require Import Proto ProtoEvolves ProtoProps ProtoNoExc FailCount FailCountProofs Callbacks CallbackGen CallbackRefine Coroutines CoroutineGen CoroutineRefine InvProg InverterGen InvProgRefine.
 Import ListNotations.
 
 (* the count carried by the RequestFailedException of a failing request = failed requests since the last successful one
@@ -40,6 +40,30 @@ Proof. exact tcp_error_received_refined. Qed.
 Theorem C09_execute_catches_is_the_model : forall e, (match classify e with OFailed => true | _ => false end) = existsb (isinstance e) (ex_caught execute_shape).
 Proof. exact execute_catches_refined. Qed.
 
+(* Inverter._read_from_socket as translated from the current source (tools/rf2v.py: its try body, its except clauses in order, the class
+   hierarchy of exceptions.py) IS the counter model: on every history of what execute() did -- a response, MaxRetriesException or
+   RequestFailedException (which = true / false), RequestRejectedException -- the counts carried by the raised RequestFailedExceptions are
+   those of count_run, from any starting value *)
+Theorem C09_read_from_socket_is_the_model : forall h c, run_calls c h = count_run c (map fst h).
+Proof. exact read_from_socket_history. Qed.
+
+(* a failing request raises RequestFailedException carrying the incremented counter *)
+Theorem C09_read_from_socket_failure : forall c e, as_exec RFail e ->
+  step c (Some e) = (fst (count_step c RFail), RRaiseFailed (S c)) /\ snd (count_step c RFail) = Some (S c).
+Proof. exact read_from_socket_failure. Qed.
+
+(* every other exception passes through unchanged and leaves the counter alone; inside the family it stays inside the family *)
+Theorem C09_read_from_socket_other : forall c e, e <> IMaxRetries -> e <> IRequestFailed -> step c (Some e) = (c, RPropagate e).
+Proof. exact read_from_socket_other. Qed.
+
+Theorem C09_read_from_socket_stays_in_family : forall c e, e <> IOther ->
+  match snd (step c (Some e)) with RReturn => False | RRaiseFailed _ => True | RPropagate e' => e' = e /\ e' <> IOther end.
+Proof. exact read_from_socket_stays_in_family. Qed.
+
+Print Assumptions C09_read_from_socket_is_the_model.
+Print Assumptions C09_read_from_socket_failure.
+Print Assumptions C09_read_from_socket_other.
+Print Assumptions C09_read_from_socket_stays_in_family.
 Print Assumptions C09_reported_count.
 Print Assumptions C09_first_failure_after_success_reports_one.
 Print Assumptions C09_exceptions_are_mapped.
